@@ -75,3 +75,62 @@ Definition expand (nobs : nat) (oq fq : list nat) (ps : list pauli) : res (list 
   | None => Refused
   | Some m => Ok (map (expand1 m (length fq)) ps)
   end.
+
+(* ------------------------------------------------------------------------------------------
+   Additions (C17 review follow-up).  Nothing above is changed.
+   ------------------------------------------------------------------------------------------ *)
+
+(* observables_restricted_to_subsystem, both input paths.
+   PauliList path (aslist = false): o.z[:, qubits] is evaluated even with zero rows, so an
+   out-of-range index is an IndexError whatever the number of observables.
+   list[Pauli] fallback (aslist = true): [observable[(qubits,)] for observable in ...] never
+   evaluates the index when the list is empty -> [] ; otherwise the first element raises. *)
+Definition restrict_seq (aslist : bool) (n : nat) (qs : list nat) (ps : list pauli)
+  : res (list pauli) :=
+  match aslist, ps with
+  | true, [] => Ok []
+  | _, _ => restrict n qs ps
+  end.
+
+(* decompose_observables as a PUBLIC CALL (n = observables.num_qubits): the dict comprehension
+   restricts group after group in dict order; the first group holding an index >= n raises
+   IndexError (reachable exactly when len(partition_labels) > n, see decompose_call_crash);
+   len(partition_labels) < n is not validated by the source: the trailing qubits are dropped. *)
+Fixpoint decompose_groups (aslist : bool) (n : nat) (G : list (nat * list nat)) (ps : list pauli)
+  : res (list (nat * list nat * list pauli)) :=
+  match G with
+  | [] => Ok []
+  | lq :: r =>
+      res_bind (restrict_seq aslist n (snd lq) ps) (fun sub =>
+        res_map (cons (fst lq, snd lq, sub)) (decompose_groups aslist n r ps))
+  end.
+
+Definition decompose_call (aslist : bool) (n : nat) (labels : list nat) (ps : list pauli)
+  : res (list (nat * list nat * list pauli)) :=
+  decompose_groups aslist n (qubits_by_subsystem labels) ps.
+
+(* expand_observables: WHICH of the two documented ValueErrors is raised.
+   RCount a b  : "The `observables` and `original_circuit` must have the same number of qubits. (a != b)"
+   RMissing i  : "The i-th qubit of the `original_circuit` cannot be found in the `final_circuit`."
+   The count check comes first; the find_bit loop stops at the first missing qubit. *)
+Inductive refusal := RCount (nobs n : nat) | RMissing (i : nat).
+
+Definition refusal_beq (a b : refusal) : bool :=
+  match a, b with
+  | RCount x y, RCount x' y' => Nat.eqb x x' && Nat.eqb y y'
+  | RMissing i, RMissing j => Nat.eqb i j
+  | _, _ => false
+  end.
+
+Fixpoint first_missing (oq fq : list nat) (i : nat) : option nat :=
+  match oq with
+  | [] => None
+  | q :: r => match index_of q fq with
+              | None => Some i
+              | Some _ => first_missing r fq (S i)
+              end
+  end.
+
+Definition expand_refusal (nobs : nat) (oq fq : list nat) : option refusal :=
+  if negb (Nat.eqb nobs (length oq)) then Some (RCount nobs (length oq))
+  else option_map RMissing (first_missing oq fq 0).
